@@ -31,7 +31,7 @@ def dy(rng, lo=-64, hi=64, den=8):
 def gen_value(rng, kind, name, k):
     """returns (wire, python value)"""
     t64 = torch.float64
-    pos_names = ("step_time", "time_constant", "rate_constant", "range", "sharpness", "decay")
+    pos_names = ("step_time", "time_constant", "rate_constant", "range", "sharpness", "decay", "dt", "tc", "tc_decay", "tc_rise")
     if kind == "real":
         if name in pos_names or name.endswith("_constant"):
             v = rng.choice([0.25, 0.5, 1.0, 2.0, 3.5, 10.0, 20.0])
@@ -123,20 +123,27 @@ def validate(ctx, mods: list[str], ex: Exploration, per_fn: int = 60) -> None:
         if m not in translate_spec.SPEC:      # e.g. "Routes" (Gen/Routes.lean): tied by glue theorems, no Python callable
             continue
         item = translate_spec.SPEC[m]
-        pymod = importlib.import_module(item["file"][:-3].replace("/", "."))
-        src = (translate_spec_path(item["file"])).read_text()
-        for fn, d in item["functions"].items():
-            f = getattr(pymod, fn)
-            import ast
-            fdef = next(n for n in ast.parse(src).body if isinstance(n, ast.FunctionDef) and n.name == fn)
-            order = [a.arg for a in fdef.args.posonlyargs + fdef.args.args + fdef.args.kwonlyargs]
-            seg = ast.get_source_segment(src, fdef) or ""
+        import ast
+        entries = []          # (name, callable, parameter order, kinds, source segment)
+        if item.get("functions"):
+            pymod = importlib.import_module(item["file"][:-3].replace("/", "."))
+            src = (translate_spec_path(item["file"])).read_text()
+            for fn, d in item["functions"].items():
+                fdef = next(n for n in ast.parse(src).body if isinstance(n, ast.FunctionDef) and n.name == fn)
+                order = [a.arg for a in fdef.args.posonlyargs + fdef.args.args + fdef.args.kwonlyargs]
+                entries.append((fn, getattr(pymod, fn), order, d["params"], ast.get_source_segment(src, fdef) or ""))
+        for sn, site in item.get("sites", {}).items():
+            # the site expression, compiled from /repo's current source, is the Python original
+            import sites as sitemod
+            fd, seg = sitemod.build(translate_spec_path(site["file"]).read_text(), sn, site, f"{site['file']}::{sn}")
+            entries.append((sn, sitemod.compile_site(fd), list(site["params"]), site["params"], seg))
+        for fn, f, order, params, seg in entries:
             exact = not any(t in seg for t in TRANSC)
             for _ in range(per_fn):
                 k = rng.randint(1, 3)
                 wire, kwargs = [], {}
                 for p in order:
-                    w, v = gen_value(rng, d["params"][p], p, k)
+                    w, v = gen_value(rng, params[p], p, k)
                     wire.append(w)
                     kwargs[p] = v
                 try:
